@@ -530,10 +530,10 @@ macro_rules! impl_signed {
 
             #[inline]
             fn abs_sub(&self, other: &Self) -> Self {
-                if self.re() > other.re() {
-                    self - other
-                } else {
+                if self.re() <= other.re() {
                     Self::zero()
+                } else {
+                    self - other
                 }
             }
 
